@@ -4,6 +4,9 @@
 (* An expression is a tree e:                                                   *)
 (*   [op |-> "word", f, t]            f = "" : no field prefix; t letter codes   *)
 (*   [op |-> "phrase", f, words, slop]  slop = 0: none written (default 1)      *)
+(*   [op |-> "multi", f, parts]       one typed word that the field's analyzer    *)
+(*                                    breaks into several tokens (written with    *)
+(*                                    hyphens; f is a field that splits there)    *)
 (*   [op |-> "prefix", f, t]          t*                                         *)
 (*   [op |-> "wild", f, t]            letter code -1 is ?, -2 is *               *)
 (*   [op |-> "range", f, lo, hi, haslo, hashi, loexcl, hiexcl]   [lo TO hi] ...  *)
@@ -33,7 +36,7 @@ Num(n) == IF n < 0 THEN "-" \o ToString(0 - n) ELSE ToString(n)
 
 \* binding strength of the expression's outermost construct
 Level(e) ==
-  CASE e.op \in {"word", "phrase", "prefix", "wild", "range", "nrange", "boost", "fgroup"} -> 4
+  CASE e.op \in {"word", "multi", "phrase", "prefix", "wild", "range", "nrange", "boost", "fgroup"} -> 4
     [] e.op = "not" -> 3
     [] e.op = "and" -> 2
     [] e.op = "or" -> 1
@@ -48,6 +51,7 @@ Join(kids, sep, lv) == IF Len(kids) = 1 THEN Sub(kids[1], lv)
                        ELSE Sub(Head(kids), lv) \o sep \o Join(Tail(kids), sep, lv)
 Render(e) ==
   CASE e.op = "word" -> FieldPrefix(e.f) \o Word(e.t)
+    [] e.op = "multi" -> FieldPrefix(e.f) \o Join([i \in DOMAIN e.parts |-> [op |-> "word", f |-> "", t |-> e.parts[i]]], "-", 4)
     [] e.op = "prefix" -> FieldPrefix(e.f) \o Word(e.t) \o "*"
     [] e.op = "wild" -> FieldPrefix(e.f) \o Word(e.t)
     [] e.op = "phrase" -> FieldPrefix(e.f) \o "\"" \o Join([i \in DOMAIN e.words |-> [op |-> "word", f |-> "", t |-> e.words[i]]], " ", 4)
@@ -86,6 +90,9 @@ Meaning(e, cfg, f) ==
   LET fld == IF "f" \in DOMAIN e /\ e.f # "" THEN e.f ELSE f
       kids(op) == [op |-> op, kids |-> [i \in DOMAIN e.kids |-> Meaning(e.kids[i], cfg, f)], b4 |-> 4]
   IN CASE e.op = "word" -> Spread(cfg, fld, LAMBDA g : [op |-> "term", f |-> g, t |-> e.t, b4 |-> 4])
+       \* the tokens of one typed word are joined the way the parser joins clauses (multitoken_query "default")
+       [] e.op = "multi" -> [op |-> cfg.group, b4 |-> 4,
+                             kids |-> [i \in DOMAIN e.parts |-> [op |-> "term", f |-> e.f, t |-> e.parts[i], b4 |-> 4]]]
        [] e.op = "prefix" -> Spread(cfg, fld, LAMBDA g : [op |-> "prefix", f |-> g, t |-> e.t, b4 |-> 4])
        [] e.op = "wild" -> Spread(cfg, fld, LAMBDA g : [op |-> "wildcard", f |-> g, t |-> e.t, b4 |-> 4])
        [] e.op = "phrase" -> Spread(cfg, fld, LAMBDA g :
